@@ -77,6 +77,16 @@ VALUES = {
     AM: ["[ u1 " + G.enc_str("a") + " n ]", "[ n ]", "[ [ ] ]", "[ " + G.enc_str("a") + " u1 ]", "[ { } ]", "[ t f ]", "[ u1 u2 " + G.enc_str("3") + " ]"],
     OBJ: ["{ " + G.enc_str("k") + " u1 }", "{ }", "{ " + G.enc_str("a") + " n " + G.enc_str("b") + " [ ] }"],
 }
+# long arrays (31 .. 65 elements, around chunking / vectorising thresholds): all numbers, all strings, and numbers / strings with ONE
+# element of another type at the very end, in the middle, or at the start
+for _n in (31, 32, 33, 39, 40, 64, 65):
+    VALUES[AN].append("[ " + " ".join("u%d" % (k % 7) for k in range(_n)) + " ]")
+    VALUES[AS].append("[ " + " ".join(G.enc_str("s%d" % (k % 5)) for k in range(_n)) + " ]")
+    for _pos in (_n - 1, _n - 2, _n // 2, 0):
+        for _base, _odd in (("u1", G.enc_str("x")), (G.enc_str("a"), "u1"), ("u2", "n"), (G.enc_str("b"), "[ ]")):
+            _xs = [_base] * _n
+            _xs[_pos] = _odd
+            VALUES[AM].append("[ " + " ".join(_xs) + " ]")
 ONE_ARG = ["abs", "avg", "ceil", "floor", "keys", "length", "max", "min", "reverse", "sort", "sum", "to_array", "to_number", "to_string", "type", "values"]
 
 
